@@ -80,6 +80,7 @@ func packageTo(y, format string, w io.Writer, tweak func(*nfpm.Info)) (err error
 func c06(run *ev.Run, tier string) {
 	ncfg := ncases(12, 120, tier)
 	run.Rule = "(a) write faults: for each generated config x 5 formats x {unsigned, signed} a clean run records the N writes of the output stream, then EVERY write index k in [0,N) is replayed with a writer that fails from write k on (error / partial accept + io.ErrShortWrite) and with one that fails at write k only: Package must return a non-nil error whenever the fault was reached; (b) source faults: every file reference of a config (content sources, scripts, changelog, key files) removed one at a time; (c) failing sign callbacks and unusable key files; (d) every invalid-setting class; (e) the built nfpm binary: target = symlink to /dev/full, missing sources with target = file / directory / blank / pre-existing file, and (strace -e inject) ENOSPC on the k-th write to the target and EIO on the k-th read of a source file: it must exit non-zero, print the cause and leave nothing at the target. Further source faults: every source replaced by a unix socket, a changelog that turns unparsable without changing length or mtime, a source longer than its stat size (procfs), a tree sub-directory unreadable for the building user (file system uid switched); further invalid settings: blank script paths, non-ASCII archlinux names, unknown key ids and signature methods. non-trivial = fault that was actually reached (write index < N) or a removed reference that the format reads; distinct = (config, format, variant, k)"
+	run.Rule += "; a missing file whose name contains a percent sign in the printed cause"
 	run.SetExhaustive(true)
 	var injected, reached, srcFaults, signFaults, invalids, cliRuns int64
 	maxWrites := 0
